@@ -156,13 +156,16 @@ def printedDocA (s : SchemaD) (c : OptsA) (apps : Apps) : Doc := schemaToDocA (S
 
 /-! ### erasure: without the applied custom directives it is the document of `schemaToDoc` -/
 
-def eraseIV (a : InputValDef) : InputValDef := { a with dirs := a.dirs.filter (fun d => specifiedDirectives.contains d.name) }
+/-- an application of a specified directive (`@deprecated` is the only one the builder reads) -/
+def isSpecified (d : DirApp) : Bool := specifiedDirectives.contains d.name
+
+def eraseIV (a : InputValDef) : InputValDef := { a with dirs := a.dirs.filter isSpecified }
 def eraseField (f : FieldDef) : FieldDef :=
-  { f with args := f.args.map eraseIV, dirs := f.dirs.filter (fun d => specifiedDirectives.contains d.name) }
-def eraseEnumVal (v : EnumValDef) : EnumValDef := { v with dirs := v.dirs.filter (fun d => specifiedDirectives.contains d.name) }
+  { f with args := f.args.map eraseIV, dirs := f.dirs.filter isSpecified }
+def eraseEnumVal (v : EnumValDef) : EnumValDef := { v with dirs := v.dirs.filter isSpecified }
 def eraseType (t : TypeDef) : TypeDef :=
   { t with fields := t.fields.map eraseField, values := t.values.map eraseEnumVal, inputFields := t.inputFields.map eraseIV,
-           dirs := t.dirs.filter (fun d => specifiedDirectives.contains d.name) }
+           dirs := t.dirs.filter isSpecified }
 
 /-- drop every application of a non-specified directive (and a `schema` block that only existed to carry them is kept:
     it names the same roots) -/
@@ -170,8 +173,8 @@ def eraseCustom : Def → Def
   | .type t => .type (eraseType t)
   | .ext t => .ext (eraseType t)
   | .directive d => .directive { d with args := d.args.map eraseIV }
-  | .schema sd => .schema { sd with dirs := sd.dirs.filter (fun d => specifiedDirectives.contains d.name) }
-  | .schemaExt sd => .schemaExt { sd with dirs := sd.dirs.filter (fun d => specifiedDirectives.contains d.name) }
+  | .schema sd => .schema { sd with dirs := sd.dirs.filter isSpecified }
+  | .schemaExt sd => .schemaExt { sd with dirs := sd.dirs.filter isSpecified }
   | .other => .other
 
 /-! ### `printTextWFA`: the lexical well-formedness with applied directives -/
